@@ -106,6 +106,111 @@ theorem listed_is_python_like (t : List Char) (frag : List Char) (h : frag ∈ s
   obtain ⟨f, ⟨hf, hx⟩, rfl⟩ := h
   exact ⟨f, rfl, scan_sound _ t f hf, hx⟩
 
+/-! ### completeness: every cell with call syntax is found -/
+
+/-- the text contains call syntax: a non-empty run of identifier characters immediately followed by `(`, and a `)` later -/
+def HasCall (t : List Char) : Prop :=
+  ∃ pre run after, t = pre ++ run ++ '(' :: after ∧ run ≠ [] ∧ run.all isIdChar = true ∧ ')' ∈ after
+
+theorem paren_not_id : isIdChar '(' = false := by decide
+
+theorem scan_complete (fuel : Nat) (t : List Char) (hf : t.length < fuel) (h : HasCall t) : scanCalls fuel t ≠ [] := by
+  induction fuel generalizing t with
+  | zero => omega
+  | succ n ih =>
+    obtain ⟨pre, run, after, ht, hne, hall, hclose⟩ := h
+    cases t with
+    | nil => cases pre <;> cases run <;> simp at ht hne
+    | cons c cs =>
+      simp only [scanCalls]
+      by_cases hc : isIdChar c = true
+      · simp only [hc, ↓reduceIte]
+        have hsplit : (c :: cs).takeWhile isIdChar ++ (c :: cs).dropWhile isIdChar = c :: cs := List.takeWhile_append_dropWhile
+        generalize hrun0 : (c :: cs).takeWhile isIdChar = run0 at hsplit
+        generalize hrest : (c :: cs).dropWhile isIdChar = rest at hsplit
+        have hrun0_ne : run0 ≠ [] := by rw [← hrun0]; simp [List.takeWhile, hc]
+        have hrun0_all : ∀ x ∈ run0, isIdChar x = true := by rw [← hrun0]; intro x hx; exact List.mem_takeWhile_imp hx
+        have hrest_head : ∀ x xs, rest = x :: xs → isIdChar x = false := by
+          intro x xs hx
+          have hne' : (c :: cs).dropWhile isIdChar ≠ [] := by rw [hrest, hx]; simp
+          have := List.head_dropWhile_not isIdChar hne'
+          simp only [hrest, hx, List.head_cons] at this
+          simpa using this
+        by_cases hcond : rest.head? = some '(' ∧ (rest.drop 1).contains ')' = true
+        · rw [if_pos hcond]; simp
+        · rw [if_neg hcond]
+          have hlen : rest.length < n := by
+            have := congrArg List.length hsplit
+            simp only [List.length_append, List.length_cons] at this
+            have : 0 < run0.length := List.length_pos_iff.2 hrun0_ne
+            simp only [List.length_cons] at hf
+            omega
+          apply ih rest hlen
+          -- the call lies in `rest`
+          have heq : run0 ++ rest = pre ++ (run ++ '(' :: after) := by rw [hsplit, ht]; simp [List.append_assoc]
+          rcases List.append_eq_append_iff.1 heq with ⟨a', h1, h2⟩ | ⟨c', h1, h2⟩
+          · exact ⟨a', run, after, by rw [h2]; simp [List.append_assoc], hne, hall, hclose⟩
+          · exfalso
+            -- run0 = pre ++ c', run ++ '(' :: after = c' ++ rest: then rest = '(' :: after
+            have hc'id : ∀ x ∈ c', isIdChar x = true := fun x hx => hrun0_all x (by rw [h1]; simp [hx])
+            have hrest_eq : rest = '(' :: after := by
+              rcases List.append_eq_append_iff.1 h2 with ⟨d, g1, g2⟩ | ⟨d, g1, g2⟩
+              · -- c' = run ++ d, '(' :: after = d ++ rest
+                cases d with
+                | nil => simpa using g2.symm
+                | cons x xs =>
+                  simp only [List.cons_append, List.cons.injEq] at g2
+                  have := hc'id x (by rw [g1]; simp)
+                  rw [← g2.1] at this; simp [paren_not_id] at this
+              · -- run = c' ++ d, rest = d ++ '(' :: after
+                cases d with
+                | nil => simpa using g2
+                | cons x xs =>
+                  have hx : isIdChar x = true := by
+                    rw [List.all_eq_true] at hall; exact hall x (by rw [g1]; simp)
+                  have := hrest_head x (xs ++ '(' :: after) (by rw [g2]; simp)
+                  rw [hx] at this; cases this
+            apply hcond
+            rw [hrest_eq]
+            simp only [List.head?_cons, List.drop_succ_cons, List.drop_zero, true_and]
+            simpa using hclose
+      · simp only [hc, Bool.false_eq_true, ↓reduceIte]
+        apply ih cs (by simp only [List.length_cons] at hf; omega)
+        cases pre with
+        | nil =>
+          exfalso
+          cases run with
+          | nil => exact hne rfl
+          | cons x xs =>
+            simp only [List.nil_append, List.cons_append, List.cons.injEq] at ht
+            rw [List.all_eq_true] at hall
+            have := hall x (by simp)
+            rw [← ht.1] at this; exact hc this
+        | cons p ps =>
+          simp only [List.cons_append, List.cons.injEq] at ht
+          exact ⟨ps, run, after, ht.2, hne, hall, hclose⟩
+
+/-- **Completeness**: a cell whose text contains call syntax and no upper-case letter at all (hence no upper-case
+    function call) is listed. -/
+theorem flags_python_like (t : List Char) (h : HasCall t) (hu : ∀ c ∈ t, isUpperAZ c = false) : suspicious t ≠ [] := by
+  have hs := scan_complete (t.length + 1) t (by omega) h
+  unfold suspicious
+  intro hnil
+  simp only [List.map_eq_nil_iff, List.filter_eq_nil_iff] at hnil
+  obtain ⟨f, rest', hf⟩ := List.exists_cons_of_ne_nil hs
+  have hmem : f ∈ scanCalls (t.length + 1) t := by rw [hf]; simp
+  have hx := hnil f hmem
+  obtain ⟨hne, _, _, hin⟩ := scan_sound _ t f hmem
+  -- the identifier's first character is a character of the text, hence not upper-case
+  cases hid : f.1 with
+  | nil => exact hne hid
+  | cons c cs =>
+    have hc : c ∈ t := by
+      apply hin.subset
+      simp [fragmentText, hid]
+    have := hu c hc
+    simp [isExcelCall, hid, this] at hx
+
 /-- with the check disabled the safety exception is never raised; enabled, it is raised exactly when a cell is listed -/
 theorem disabled_never_raises (report : List (List Char × List (List Char))) : gate false report = .ok () := rfl
 
